@@ -35,7 +35,7 @@ structure RunFacts (D : Deps) (pp : PagePred D) (cols : List Col) (codec : Nat) 
   table : gs.map (·.map pagesData) = tableOf cols ops
   groupP : ∀ g ∈ gs, GroupP pp cols g
   chunksFor : ∀ g ∈ md.rowGroups, ChunksFor codec cols g.chunks
-  rowsZip : RowsZip md.rowGroups gs
+  rowsZip : RowsZip cols md.rowGroups gs
   ordinals : ∀ (i : Nat) (g : RgMeta), md.rowGroups[i]? = some g → g.ordinal = i
 
 theorem run_facts (D : Deps) (pp : PagePred D) (cols : List Col) (codec pageSize : Nat) (createdBy : String)
@@ -86,6 +86,7 @@ theorem run_facts (D : Deps) (pp : PagePred D) (cols : List Col) (codec pageSize
   obtain ⟨x1, _, x3, x4⟩ := hX
   rw [hcols] at x1
   rw [hcols, hcodec] at x3
+  rw [hcols] at x4
   generalize closing D (stateAfter D { cols := cols, codec := codec, pageSize := pageSize, createdBy := createdBy } ops) = W' at *
   exact ⟨by simp [footerOf, List.append_assoc], hcols, hcb, hrows, c3, g2, hgo, htab, x1, x3, x4.1, x4.2⟩
 
